@@ -45,6 +45,7 @@ type V struct {
 	L  []V          `json:"l,omitempty"`  // List, Vec
 	M  map[string]V `json:"m,omitempty"`  // Map
 	St []string     `json:"st,omitempty"` // Set (sorted)
+	T  string       `json:"t,omitempty"`  // GoErr coming from the implementation: the error's text (compared by EqExact only)
 	F  any          `json:"-"`            // reference interpreter only: the callable behind a Fn
 }
 
@@ -137,7 +138,7 @@ func from(x types.MalType, depth int) V {
 	case types.MalFunc, types.Func:
 		return V{K: Fn}
 	case error:
-		return V{K: GoErr, S: fmt.Sprintf("%T", t)}
+		return V{K: GoErr, S: fmt.Sprintf("%T", t), T: t.Error()}
 	default:
 		tn := fmt.Sprintf("%T", x)
 		if strings.HasSuffix(tn, ".Atom") {
@@ -241,7 +242,7 @@ func EqLisp(a, b V) bool { return eq(a, b, true) }
 // the definition does not say which of the two a failing builtin delivers).
 func EqExact(a, b V) bool {
 	if a.K == GoErr || b.K == GoErr {
-		return a.K == b.K && a.S == b.S
+		return a.K == b.K && a.S == b.S && a.T == b.T
 	}
 	if a.K != b.K {
 		return false
